@@ -9,6 +9,7 @@ tie B : harness/remover.cpp (real ScopedRemover over CallbackList / EventDispatc
 break : a failing proof step or an untranslatable leaf switches the oracle to the model the
         theorems are proved for (`remover-spec`: move assignment releases first) and searches a
         failing input; a disagreement is shrunk and reported with the traces."""
+import hashlib
 import os
 
 import remover_domain as rd
@@ -55,8 +56,30 @@ def corpus_cases():
     return out
 
 
-def run(ctx):
+def prove_and_extract(ctx):
+    """tie A + proofs + extraction.  coq/gen is shared: a concurrent check of another property
+    regenerates every leaf from ITS tree (possibly a scratch copy, VERIF_REPO).  If GenRemover.v is
+    no longer the text this run generated, the proof step is repeated (bounded)."""
     proof = vlib.coq_prove(ctx, FILES)
+    for _ in range(2):
+        want = proof.get('leaves', {}).get('GenRemover.v')
+        try:
+            have = hashlib.sha256(open(os.path.join(vlib.COQ, 'gen', 'GenRemover.v'), 'rb').read()).hexdigest()[:16]
+        except OSError:
+            have = None
+        if want is None or want == have:
+            break
+        ctx.notes.append('coq/gen/GenRemover.v was rewritten by a concurrent run during the proof step; proof step repeated')
+        proof = vlib.coq_prove(ctx, FILES)
+    # the driver of this domain only (vlib builds all drivers and stops at the first failing one)
+    rc, o, e = vlib.sh('make -C %s _build/driver_remover' % os.path.join(vlib.ROOT, 'ocaml'), timeout=600)
+    if rc != 0 or not os.path.exists(os.path.join(vlib.DRIVERS, 'driver_remover')):
+        raise RuntimeError('model driver driver_remover does not build: %s' % (e or o)[-800:])
+    return proof
+
+
+def run(ctx):
+    proof = prove_and_extract(ctx)
     bins = build(ctx, VARIANTS_THOROUGH if ctx.tier == 'thorough' else VARIANTS_QUICK)
     n = ctx.budget(6000, 60000)
     cases = corpus_cases()
